@@ -17,8 +17,10 @@ CLAIMED = {
              ref="DESIGN.md 4 (C11)", note=TRUST, tech=TECH),
  "C12": dict(text="Seeded search over single-thread handle histories (construct, copy/move construct and assign incl. self and same-object, converting copy/move, swap, reset, unify, scope exit, no-op deleter) and over interleavings of 2-3 threads copying, moving and dropping private handles to one shared object while the controller drops its own concurrently; oracles: use_count()/unique() == number of handles observed pointing to the object after every step, destroy-exactly-once ledger, never destroyed while a handle remains (ledger + ASan), destroyed when the last handle goes, TSan on the object and its count. Sampling, not proof.",
              ref="DESIGN.md 4 (C12)", note=TRUST, tech=TECH),
+ "C06": dict(text="Seeded search over (n 0..96 incl. n<threads and n not divisible, key multisets: all-equal, 2-4 keys, sorted/reversed runs, random; POD and heap-owning ledgered element types; threads 1..6 and 16, default thread count via the hardware_concurrency shim; exact and sampling splitting, oversampling 1..4; stable/unstable) x thread interleavings through the barrier phases; oracles: == std::stable_sort (stable), sorted permutation (unstable), live-instance ledger unchanged at return (every temporary copy destroyed), no double destroy / use of a destroyed element, termination (deadlock, step bound), ASan, TSan. Sampling, not proof.",
+             ref="DESIGN.md 4 (C06)", note=TRUST, tech=TECH),
 }
-PENDING = ["C02", "C04", "C06", "C07", "C16", "C17"]
+PENDING = ["C02", "C04", "C07", "C16", "C17"]
 NA = {
  "C01":"pure function of a single-threaded call history: no schedule, clock, fault or environment seam in the statement (model-based testing, not simulation) - DESIGN.md 5",
  "C03":"sequential string sorts are pure functions of (strings, memory limit); nothing for a scheduler or fault injector to own - DESIGN.md 5",
